@@ -479,16 +479,18 @@ class IMMachine(FormatMachine):
         ident = self.mods().identify_image
         for variant in s.obj.images:
             for arch in s.obj.images[variant]:
-                dicts = dict((d["path"], d) for d in cells.get(variant, {}).get(arch, []))
-                for img in s.obj.images[variant][arch]:
-                    d = dicts.get(img.path)
-                    if d is None:
-                        continue
-                    a, b = ident(img), ident(d)
-                    self.count("C09", ["identify", bool(img.unified), bool(img.additional_variants)])
-                    if tuple(a) != tuple(b) or tuple(a) != (identity(d)[:6] + (list(identity(d)[6]),)):
-                        raise Violation("C09", "C09.identity_object_equals_identity_dict", "identify_image-object-vs-dict",
-                                        {"object": list(a), "dict": list(b)})
+                stored = cells.get(variant, {}).get(arch, [])
+                live = list(s.obj.images[variant][arch])
+                if len(stored) != len(live):
+                    continue
+                # the cell as a multiset: identities computed from the objects == identities computed from their dicts
+                a = sorted(cjson(list(ident(i))) for i in live)
+                b = sorted(cjson(list(ident(d))) for d in stored)
+                c = sorted(cjson(list(identity(d)[:6]) + [list(identity(d)[6])]) for d in stored)
+                self.count("C09", ["identify", len(live), any(i.unified for i in live), any(i.additional_variants for i in live)])
+                if a != b or b != c:
+                    raise Violation("C09", "C09.identity_object_equals_identity_dict", "identify_image-object-vs-dict",
+                                    {"object": a[:2], "dict": b[:2], "independent": c[:2]})
 
     def op_im_inject_collision(self, op):
         """F3: between the write and the next restart a colliding pair appears in the stored document
